@@ -110,6 +110,36 @@ def check_laws(res, L, rng, tag, reps, default_order):
                             [(c * A.value).tolist(), tgt], dict(site, op='normal'))
 
 
+def check_signs_big(res, rng, dims):
+    """the per-grade sign laws in dimensions the product laws cannot afford (no table is built: reversion, grade involution, conjugation,
+    even and odd are coefficient-wise), with the grade of every slot computed here from its bitmap"""
+    import numpy as np
+    from harness import real
+    for n in dims:
+        for order in (None, gen.random_order(rng, n, 'perm')):
+            L = real.make_layout(gen.random_signature(rng, n), None, None, order)
+            N = L.gaDims
+            site = common.site_of(L)
+            gr = np.array([bin(int(b)).count('1') for b in L._basis_blade_order.index_to_bitmap.tolist()])
+            A = common.mv(L, [int(x) for x in rng.integers(-3, 4, size=N)])
+            # every slot of the top basis vectors is hit: force non-zero coefficients there
+            A.value[A.value == 0] = 1
+            res.case(('signs-big', n, order is None, A.value.tolist()[:16]), nontrivial=True)
+            res.count('signs_big_n%d' % n)
+            inp = dict(site, A='all slots non-zero, first 16: %s' % A.value.tolist()[:16])
+            rv = np.array([rev_sign(int(g)) for g in gr])
+            gi = np.array([(-1) ** int(g) for g in gr])
+            if not np.array_equal((~A).value, rv * A.value):
+                res.violate('~M does not multiply grade k by (-1)^(k(k-1)/2)', inp, None, None, dict(site, op='rev-big'))
+            if not np.array_equal(A.gradeInvol().value, gi * A.value):
+                bad = np.nonzero(A.gradeInvol().value != gi * A.value)[0][:5].tolist()
+                res.violate('gradeInvol does not multiply grade k by (-1)^k', dict(inp, slots=bad), None, None, dict(site, op='gi-big'))
+            if not np.array_equal(A.conjugate().value, rv * gi * A.value):
+                res.violate('conjugate is not reversion times grade involution', inp, None, None, dict(site, op='conj-big'))
+            if not (np.array_equal(A.even.value, np.where(gr % 2 == 0, A.value, 0)) and np.array_equal(A.odd.value, np.where(gr % 2 == 1, A.value, 0))):
+                res.violate('even/odd are not the even-/odd-grade parts', inp, None, None, dict(site, op='evenodd-big'))
+
+
 def check_complex(res, L, rng, tag, reps):
     """complex coefficients: the grade laws and mag2 = <~M M>_0 are algebraic (no conjugation of coefficients)"""
     import numpy as np
@@ -186,6 +216,7 @@ def run_job(job, tier, seed):
             if L.gaDims <= 64:
                 common.gcall(res, check_complex, L, rng, tag, 2)
         common.gcall(res, correspondence, [(t, L) for t, L in layouts if L.gaDims <= 128], rng, 2 if tier == 'quick' else 6, 'nojit')
+        common.gcall(res, check_signs_big, rng, (9, 10, 11) if tier == 'quick' else (9, 10, 11, 12, 13))
         for name in ('g3c', 'pga', 'sta:D'):
             L = real.predefined(name)
             common.gcall(res, check_laws, L, rng, name, reps=3, default_order=True)
